@@ -170,7 +170,7 @@ class LeasePub:
 
 
 class Net:
-    def __init__(self, lenreq, frag_client=None, frag_server=None, lease=False, handler_factories=None):
+    def __init__(self, lenreq, frag_client=None, frag_server=None, lease=False, handler_factories=None, client_kwargs=None):
         from rsocket.rsocket_server import RSocketServer
         from rsocket.rsocket_client import RSocketClient
         from rsocket.helpers import single_transport_provider
@@ -193,7 +193,7 @@ class Net:
             box['c'] = RSocketClient(single_transport_provider(self.tc),
                                      handler_factory=hf.get('client') or self.apps['client'].handler_class(),
                                      fragment_size_bytes=frag_client, keep_alive_period=timedelta(seconds=100000),
-                                     max_lifetime_period=timedelta(seconds=500000), honor_lease=lease)
+                                     max_lifetime_period=timedelta(seconds=500000), honor_lease=lease, **(client_kwargs or {}))
             asyncio.create_task(box['c'].connect())
         self.loop.run(mk)
         self.loop.settle()
